@@ -1358,6 +1358,20 @@ func (p *InlineParser) processEmphasis(state *inlineState, stackBottom int) {
 	for i := range openersBottom {
 		openersBottom[i] = stackBottom
 	}
+	// deleteFromStack removes state.stack[i:j],
+	// keeping the lower bounds (which are stack indices)
+	// pointing at the same elements.
+	deleteFromStack := func(i, j int) {
+		state.stack = deleteDelimiterStack(state.stack, i, j)
+		for k, bottom := range openersBottom {
+			switch {
+			case bottom >= j:
+				openersBottom[k] = bottom - (j - i)
+			case bottom > i:
+				openersBottom[k] = i
+			}
+		}
+	}
 closerLoop:
 	for {
 		// Move current_position forward in the delimiter stack (if needed)
@@ -1398,19 +1412,19 @@ closerLoop:
 			}
 
 			// Remove any delimiters between the opener and closer from the delimiter stack.
-			state.stack = deleteDelimiterStack(state.stack, openerIndex+1, currentPosition)
+			deleteFromStack(openerIndex+1, currentPosition)
 			currentPosition = openerIndex + 1
 
 			// If either the opening or the closing text nodes became empty,
 			// remove them from the tree.
 			if opener.Span().Len() == 0 {
 				state.remove(opener)
-				state.stack = deleteDelimiterStack(state.stack, openerIndex, openerIndex+1)
+				deleteFromStack(openerIndex, openerIndex+1)
 				currentPosition--
 			}
 			if closer.Span().Len() == 0 {
 				state.remove(closer)
-				state.stack = deleteDelimiterStack(state.stack, currentPosition, currentPosition+1)
+				deleteFromStack(currentPosition, currentPosition+1)
 			}
 		} else {
 			// We know that there are no openers for this kind of closer up to and including this point,
@@ -1420,9 +1434,7 @@ closerLoop:
 			if state.stack[currentPosition].flags&openerFlag == 0 {
 				// Remove delimiter from the stack
 				// since we know it can't be a closer either.
-				copy(state.stack[currentPosition:], state.stack[currentPosition+1:])
-				state.stack[len(state.stack)-1] = delimiterStackElement{}
-				state.stack = state.stack[:len(state.stack)-1]
+				deleteFromStack(currentPosition, currentPosition+1)
 			} else {
 				currentPosition++
 			}
